@@ -188,3 +188,20 @@ pub(super) mod udp {
         }
     }
 }
+
+#[cfg(feature = "verif-hooks")]
+pub mod verif {
+    pub mod tcp {
+        pub use super::super::tcp::ClientContext;
+        pub use super::super::tcp::PayloadCodec;
+        pub use super::super::tcp::new_payload_codec;
+    }
+    pub mod udp {
+        pub use super::super::udp::Client;
+        pub use super::super::udp::DatagramPacketCodec;
+        pub use super::super::udp::new_key;
+        pub use super::super::udp::new_plain_outbound;
+        pub use super::super::udp::to_inbound_recv;
+        pub use super::super::udp::to_outbound_send;
+    }
+}
